@@ -388,18 +388,30 @@ let op_scan r = function
                       if is_suffix "\r" l then String.sub l 0 (String.length l - 1) else l in
         let pos = ref 0 and k1 = ref 0 and prev_sep = ref false and d_start = ref (-1) and off = ref 0 in
         let pend = ref 0 and pend_start = ref (-1) in
+        let run_n = ref 0 and run_w = ref 0 in
         let nf = String.length i_fwd in
         List.iter (fun l ->
           if !d_start < 0 then begin
             let n = String.length l in
+            if strip l <> "==================" then begin
+              if !run_w > (!run_n + 1) / 2 then flag r "prop:C02:separator-run-withheld";
+              run_n := 0; run_w := 0
+            end;
             if !pos + n <= nf && String.sub i_fwd !pos n = l then
-              (pos := !pos + n; prev_sep := false; k1 := !k1 + !pend; pend := 0; pend_start := -1)
-            else if strip l = "==================" then
-              (if !pend = 0 then pend_start := !off; incr pend; prev_sep := true)
+              (if strip l = "==================" then incr run_n;
+               pos := !pos + n; prev_sep := false; k1 := !k1 + !pend; pend := 0; pend_start := -1)
+            else if strip l = "==================" then begin
+              (* K1 is ONE withheld separator (and the warning right after it): the line after a withheld separator
+                 is examined afresh, so of a run of n separator lines the code as it stands withholds every other
+                 one, ceil(n/2) in all (which ones cannot be told apart: the lines are identical) *)
+              incr run_n; incr run_w;
+              if !pend = 0 then pend_start := !off; incr pend; prev_sep := true
+            end
             else if !prev_sep && strip l = "WARNING: DATA RACE" then (incr pend; prev_sep := false)
             else d_start := (if !pend > 0 then !pend_start else !off)
           end;
           off := !off + String.length l) ls;
+        if !run_w > (!run_n + 1) / 2 && !run_n > 1 then flag r "prop:C02:separator-run-withheld";
         if !d_start < 0 && !pend > 0 then d_start := !pend_start;
         if !pos <> nf then flag r "prop:C02:forwarded-bytes-not-from-input-in-order"
         else begin
@@ -996,6 +1008,7 @@ let op_guess r = function
 let rec op_augment r = function
   | [content; fs; frames; floats; i_snap; i_plain; named] ->
     if named = "0" then flag r "prop:C19:pseudo-name-replaced-a-value";
+    if named = "S" then flag r "prop:C19:rendering-the-arguments-changed-them";
     if named = "P" then flag r "impl:panic";
     op_augment r [content; fs; frames; floats; i_snap; i_plain]
   | [content; _fs; frames; floats; i_snap; i_plain] ->
